@@ -273,8 +273,8 @@ def main():
         kf_lines = []
         for f in known.get("findings", []):
             if f.get("property") == prop and f.get("status") == "known":
-                key = prop + "|" + f["signature"]
-                kf_lines.append("KNOWN-FINDING: property=%s %s [signature %s; hit %d times in this run]" % (prop, f.get("what", ""), f["signature"], m["known_hits"].get(key, 0)))
+                hits = sum(m["known_hits"].get(prop + "|" + sg, 0) for sg in f["signatures"])
+                kf_lines.append("KNOWN-FINDING: property=%s %s [%d listed signature(s), e.g. %s; hit %d times in this run]" % (prop, f.get("what", ""), len(f["signatures"]), f["signatures"][0], hits))
         write_evidence(prop, tier, seed, meta, m, wall, build_s, cached, cdir, violations, known)
         for l in kf_lines:
             print(l)
